@@ -29,7 +29,9 @@ may or may not be a time-out": notifications only make evaluations happen earlie
 real schedule is a schedule of the model whether or not a notification is lost.
 Buffers are byte lists (capacity = cfg.size); free buffers are all empty, so `free` is a count.
 `appendLock(); appendLockless()…; appendUnlock()` is one `acquire … release` whose data is the
-concatenation of the lockless appends.
+concatenation of the lockless appends.  Re-entrant use (the sink callback appends to the same pipe) is
+`acquire sinkTid` while the back end is inside the callback; the callback returns (`bCbRet`) only
+after that nested append has released the producer lock.
 Ghost fields (used by theorems only): `delivered`, `acq`, `active`, `late`.
 -/
 namespace Tbox.C10
@@ -109,9 +111,18 @@ def Step.isBackend : Step → Bool
   | .bTop | .bWake _ | .bGrab | .bPop | .bCbRet | .bPushFree => true
   | _ => false
 
+/-- pseudo producer id of the sink callback: an `append` made from INSIDE the sink callback (re-entrant use:
+an ack / echo, a logger whose sink logs) is an ordinary append executed by the back-end thread, which
+for its duration is one more producer — `acquire sinkTid … release` while the pc is `inCb` -/
+def sinkTid : Nat := 7
+
+def BPc.isInCb : BPc → Bool
+  | .inCb _ => true
+  | _ => false
+
 /-- is the step enabled? -/
 def valid (s : State) : Step → Bool
-  | .acquire p => s.owner.isNone && !(s.prog p).isEmpty && !s.joined
+  | .acquire p => s.owner.isNone && !(s.prog p).isEmpty && !s.joined && (p != sinkTid || s.bpc.isInCb)
   | .pTake => match s.owner with
       | some o => !o.blocked && !o.remain.isEmpty && s.curr.isNone
       | none => false
@@ -128,7 +139,9 @@ def valid (s : State) : Step → Bool
   | .bWake _ => s.bpc == .waiting
   | .bGrab => match s.bpc with | .woke _ _ => true | _ => false
   | .bPop => match s.bpc with | .drain _ => true | _ => false
-  | .bCbRet => match s.bpc with | .inCb _ => true | _ => false
+  | .bCbRet => match s.bpc with      -- the callback returns only after its nested append (if any) has returned
+      | .inCb _ => (match s.owner with | some o => o.tid != sinkTid | none => true)
+      | _ => false
   | .bPushFree => match s.bpc with | .pushFree _ => true | _ => false
   | .cleanupSignal => !s.stop
   | .join => s.stop && s.bpc == .exited && !s.joined
